@@ -114,7 +114,8 @@ pub fn gen_history<S: Sut>(seed: u64, cfg: Cfg, sweep: Option<Sweep>) -> Outcome
         }
         if choice < 4 || w.ops.is_empty() {
             let actor = if cfg.misuse && rng.chance(1, 3) { 7 } else { r as u8 };
-            go!(Act::Gen { r, actor, cmd: (rng.below(250) as u8, rng.below(250) as u8, rng.below(250) as u8), old: rng.below(12) });
+            let cmd = S::random_cmd(&mut rng, &w.sh);
+            go!(Act::Gen { r, actor, cmd, old: rng.below(12) });
         } else if choice < 8 || !cfg.merges || !S::HAS_MERGE {
             // delivery, restricted by policy
             let slow = policy == 4 && r == 0 && frac < 8;
